@@ -334,6 +334,42 @@ def replay_case(arg):
                                                                                          undefined_at=holes))
             except Exception as e:
                 fail('Evaluable', type(e).__name__, dict(op='undefined prediction at an unmeasured pair', error=repr(e)))
+    # ---- ONE error-model object listed for every output (callers write [em] * n): every output still has its own noise
+    # parameters -- names per output, the bag of terms with each output's own values, and fixing one output's noise parameter
+    # leaves the other outputs' free
+    if not fails and nout >= 2 and all(n_.startswith('Y1 ') for n_ in np.array(rec['names'])[slices[0]]):
+        try:
+            k0 = kinds[0]
+            ne = len(slices[0])
+            base = [rec['names'][q][3:] for q in slices[0]]
+            names_x = rec['names'][:nmech] + ['Y%d %s' % (o + 1, b_) for o in range(nout) for b_ in base]
+            sl_s = [nmech + o * ne + np.arange(ne) for o in range(nout)]
+            th_s = np.concatenate([theta[:nmech]] + [np.round(theta[slices[0]] * (1.0 + 0.25 * o), 4) for o in range(nout)])
+
+            def ref_s(th):
+                tot = 0.0
+                for (o, n_, at) in rec['pointwise']:
+                    pred = probes.probe_output(o - 1, np.array([treal(at)]), th[:nmech])[0]
+                    tot = tot + interp.ERR[k0](obs[o - 1][n_ - 1], pred, th[sl_s[o - 1]])
+                return tot
+            e_s = interp.value(ref_s, th_s)
+            with warnings.catch_warnings():
+                warnings.simplefilter('error', RuntimeWarning)
+                ll_s = chi.LogLikelihood(probes.ProbeMech(nmech, nout, tag=tag + 's'), [probes.error_model(k0)] * nout,
+                                         [o.copy() for o in obs], [t.copy() for t in times])
+                names_s = list(ll_s.get_parameter_names())
+                v_s = ll_s(th_s.copy()) if len(names_s) == len(th_s) else np.nan
+                ll_s.fix_parameters({names_x[-1]: float(th_s[-1])})
+                n_s = ll_s.n_parameters()
+                v_s2 = ll_s(th_s[:-1].copy()) if n_s == len(th_s) - 1 else np.nan
+            cnt['evaluations'] = cnt.get('evaluations', 0) + 2
+            cnt['one_error_model_object_for_several_outputs'] = 1
+            if names_s != names_x or n_s != len(th_s) - 1 or not (interp.close(v_s, e_s) and interp.close(v_s2, e_s)):
+                fail('BagIsDecl', 'one_error_model_object_for_several_outputs',
+                     dict(names=names_s, expected_names=names_x, n_after_fixing_one=int(n_s), got=[float(v_s), float(v_s2)],
+                          expected=e_s))
+        except Exception as e:
+            fail('Evaluable', type(e).__name__, dict(op='one error-model object for several outputs', error=repr(e)))
     # ---- the same sums with one error-model parameter fixed at the likelihood (each in turn), then released ----------
     if not fails:
         for k_ in range(nmech, rec['nparams']):
